@@ -889,7 +889,7 @@ def r1(rep, crates):
     nfmt = 0
     for cname, c in crates.items():
         for f in c.fns.values():
-            for call in f.calls(re.compile(r"fmt::rt::Argument::<'_>::new_\w+|fmt::rt::Argument::new_\w+")):
+            for call in f.calls(re.compile(r"fmt::rt::Argument::(<'_>::)?new_\w+")):
                 nfmt += 1
                 t = call.arg_types[0] if call.arg_types else ""
                 if not last_seg(mir.norm(call.callee)).startswith("new_debug"):
@@ -1034,9 +1034,8 @@ def r3(rep, crates):
     hits = {}
     for cname, c in crates.items():
         for f in c.fns.values():
-            # clap's derive output and the test-only csproj writer are not part of generation
             for call in f.calls():
-                names = " ".join(call.names())
+                names = " ".join(mir.norm(n) for n in call.names())
                 for what, rx in FORBIDDEN:
                     if rx.search(names):
                         # closures are attributed to the function that contains them
